@@ -206,6 +206,37 @@ def check(ctx, rep):
     rep.ob("R-LOCK-BLOCK", "blocking calls examined", True, "%d blocking calls with a lock held were examined" % n_block)
     rep.note("lock roles seen: %s" % sorted("%s.%s:%s" % (a, b, "/".join(sorted(str(x) for x in k))) for (a, b), k in locks_seen.items()))
 
+    # ---- weak-reference callbacks run wherever the garbage collector happens to run -- in particular inside this
+    # thread's own critical sections (any allocation can trigger a collection).  A lock such a callback takes must
+    # be re-entrant, or the thread blocks on a lock it already holds.
+    rep.rule("R-LOCK-GC", "every lock acquired by a weakref callback (weakref.ref(obj, callback)) is an RLock")
+    ngc = 0
+    for fi in sorted(prog.functions.values(), key=lambda f: f.key):
+        if fi.parent is not None:
+            continue
+        for ci in ctx.instances(fi):
+            ps, it = ctx.paths(fi, ci, depth=0)
+            seen_cb = set()
+            for p in ps:
+                for e in p.calls():
+                    if isinstance(e.d["func"], tuple) and e.d["func"][0] == "ext" and e.d["func"][1] in ("weakref.ref", "weakref.proxy", "weakref.finalize") and len(e.d["args"]) >= 2 and e.fn is fi:
+                        cb = e.d["args"][1]
+                        target = None
+                        if isinstance(cb, tuple) and cb[0] == "attr" and cb[1] == ("param", "self") and ci is not None:
+                            o, target = ci.lookup(cb[2])
+                            tci = ci
+                        elif isinstance(cb, tuple) and cb[0] == "closure":
+                            target, tci = roles.closure_fn(cb), None
+                        if target is None or (target.key, e.node.lineno) in seen_cb:
+                            continue
+                        seen_cb.add((target.key, e.node.lineno))
+                        ngc += 1
+                        ps2, it2 = ctx.paths(target, tci, depth=2)
+                        kinds = sorted(set((fmt(x.d[1]), x.d[2]) for p2 in ps2 for x in p2.events if x.kind == "enter"))
+                        badk = [k for k in kinds if k[1] != "RLock"]
+                        rep.ob("R-LOCK-GC", "%s (weakref callback registered in %s): locks it takes are re-entrant" % (target.qualname, fi.qualname), not badk, "the callback acquires %s: when the collector runs it while this thread holds that lock (any allocation inside the critical section can trigger it) the thread waits for itself" % ", ".join("%s (%s)" % k for k in badk), where_of(target), None)
+    rep.count("weakref callbacks examined", ngc, 4)
+
     # ---- layers and order
     layers = layer_classes(ctx)
     rep.count("layers", len(layers), 8)
